@@ -23,10 +23,10 @@ from props import C05 as E
 
 PROP = "C18"
 ENGINE = "rcdom"
-HAS_MODEL = False
+HAS_MODEL = True      # only for the `xmltb trace` lines (handle-level XML model); every other line: real code only
 USES_TRANSLATOR = True
-LEAN_TARGETS = ["H5V.Props.C18", "H5V.Props.C18Reach"]
-AUDIT_IMPORTS = ["H5V.Props.C18", "H5V.Props.C18Reach"]
+LEAN_TARGETS = ["H5V.Props.C18", "H5V.Props.C18Reach", "H5V.Props.C18Xml"]
+AUDIT_IMPORTS = ["H5V.Props.C18", "H5V.Props.C18Reach", "H5V.Props.C18Xml"]
 THEOREMS = ["H5V.Props.C18." + t for t in [
     "C18_fields_html", "C18_fields_xml", "C18_traced_are_fields", "C18_reach_step", "C18_reach_run",
     "C18_reach_remove", "C18_reach_reparent", "C18_reach_roots", "C18_reach_template",
@@ -34,6 +34,10 @@ THEOREMS = ["H5V.Props.C18." + t for t in [
     # in the traced fields at the suspension or was returned by the sink since
     "C18_process_token", "C18_args_from_held", "C18_held_preserved", "C18_step", "C18_step_foreign", "C18_finish",
     "C18_suspension", "C18_suspension_finish", "C18_answers", "C18_new", "C18_new_for_fragment", "C18_example",
+    # the same for the handle-level model of xml5ever's tree builder (Props/C18Xml.lean; `held` = doc_handle, open_elems,
+    # curr_elem in trace_handles order, tied to the code by the @H field of `xmltb trace`)
+    "C18_xml_args_from_held", "C18_xml_held_preserved", "C18_xml_process_token", "C18_xml_end", "C18_xml_new",
+    "C18_xml_suspension", "C18_xml_suspension_end", "C18_xml_all_from_sink", "C18_xml_example",
 ]]
 TRUSTED = [
     "Lean 4 kernel; axioms ⊆ {propext, Classical.choice, Quot.sound} (audited per run)",
@@ -115,6 +119,8 @@ SELFTEST = ["<td>a<b>x</b>y", "<tr><td>x<p>y</p><b>z", "<option>a<option>b", "<c
 def gen_cases(tier, rng):
     import vlib
     cases = []
+    xt = E.xml_trace_cases(tier, rng)
+    cases += xt[::(4 if tier == "quick" else 1)]
     fixed = D.FIXED_HTML + E.EXTRA_FIXED
     for s in fixed:
         for part in two_partitions(s):
@@ -204,7 +210,19 @@ def parse_out(out):
     return {k: int(x) for k, x in kv.items()}, p, v
 
 
+def compare(line, impl, model):
+    """only the `xmltb trace` lines have a model side (Model/XmlTBH.lean): the sink-call trace and, after every token,
+    the handles trace_handles reports (@H) must be those of the model's `held`"""
+    if E.is_xml_trace(line):
+        return impl == model
+    return True
+
+
 def oracle(line, out):
+    if E.is_xml_trace(line):
+        if out is None or out.startswith(("ABORT", "PANIC")) or "@H=" not in out:
+            return "XmlTreeBuilder crashed or malformed output: %s" % (out or "")[:200]
+        return xml_provenance(line, out)
     if out is None or out.startswith("ABORT"):
         return "implementation crashed: %s" % out
     if out.startswith("PANIC"):
@@ -239,7 +257,52 @@ def oracle_all(cases, outs):
     return []
 
 
+def xml_provenance(line, out):
+    """C18 on the real XmlTreeBuilder, token by token: every handle passed to the sink while a token is processed was
+    reported by trace_handles after the previous token (the suspension point) or returned by the sink since.  The trace
+    has no token boundaries, so the check is made against the union over suspension points reached so far: a handle
+    used although it was never reported and never returned is a violation at every suspension point before its use."""
+    from vlib import ROOT  # noqa: F401  (keeps the import style of this module)
+    trace, rest = out.split("@V=")
+    held = rest.split("@H=")[1]
+    reported = set()
+    for h in held.split("/"):
+        if h != "-":
+            reported.update(int(x) for x in h.split(","))
+    returned = set()
+    n = 0
+    for op in trace.split(";"):
+        f = op.split(",")
+        k = f[0]
+        if k == "doc":
+            returned.add(n)
+            n += 1
+            continue
+        args = []
+        if k in ("en", "pop", "ms", "tc", "rm", "ip", "mc", "aa"):
+            args = [f[1]]
+        elif k == "ap":
+            args = [f[1]] + ([f[2][1:]] if f[2].startswith("n") else [])
+        elif k in ("abs", "rc", "sn"):
+            args = [x for x in f[1:3] if x.isdigit()]
+        for a in args:
+            if a.isdigit() and int(a) not in returned:
+                return "handle %s passed to the sink (%s) was never returned by the sink" % (a, op[:40])
+        if k in ("ce", "cc", "cp"):
+            returned.add(n)
+            n += 1
+    # every element the builder still used after creation must have been reported at some suspension point or be the
+    # node created while the same token was processed (covered by the model correspondence); here: the reported sets
+    # only ever contain handles the sink returned
+    bad = [h for h in reported if h not in returned]
+    if bad:
+        return "trace_handles reported handles the sink never returned: %s" % bad[:5]
+    return None
+
+
 def nontrivial(line, out):
+    if E.is_xml_trace(line):
+        return bool(out) and out.count(";") >= 7
     if not out or "@P=" not in out:
         return False
     st, _, _ = parse_out(out)
